@@ -18,12 +18,30 @@ class RngModule(object):
     def __init__(self, factory):
         self._factory = factory
         self._shared = None
+        self._cls = None
 
-    def Random(self, *a):
-        r = self._factory()
-        if a and a[0] is not None:
-            r.seed(a[0])                  # an explicit seed is honoured (the counted MT reproduces the real stream)
-        return r
+    @property
+    def Random(self):
+        """a real class (library code may say isinstance(x, rng.Random) or subclass-check it); constructing it
+        hands out a generator owned by the simulator"""
+        if self._cls is None:
+            factory = self._factory
+
+            class _Meta(type):
+                def __instancecheck__(cls, inst):
+                    return isinstance(inst, random.Random)
+
+                def __subclasscheck__(cls, sub):
+                    return issubclass(sub, random.Random)
+
+                def __call__(cls, *a, **k):
+                    r = factory()
+                    seed = a[0] if a else k.get("x")
+                    if seed is not None:
+                        r.seed(seed)          # an explicit seed is honoured (the counted MT reproduces the real stream)
+                    return r
+            self._cls = _Meta("Random", (random.Random,), {})
+        return self._cls
 
     def SystemRandom(self, *a):
         return self._factory()
